@@ -1,6 +1,7 @@
 import Driver.StoreD
 import Driver.LexD
 import Driver.ConstructD
+import Driver.ViewsD
 /-
 One line in, one line out.  First word selects the model.
 Run: `lake env lean --run Driver/Main.lean < ops.txt`
@@ -10,12 +11,14 @@ open Driver
 structure World where
   store : StoreWorld := {}
   lex : LexWorld := {}
+  views : ViewsWorld := {}
 
 def step (w : World) (line : String) : World × String :=
   match splitWords line with
   | "S" :: rest => let (s, out) := storeStep w.store rest; ({ w with store := s }, out)
   | "L" :: rest => let (s, out) := lexStep w.lex rest; ({ w with lex := s }, out)
   | "C" :: rest => (w, constructStep rest)
+  | "V" :: rest => let (v, out) := viewsStep w.views rest; ({ w with views := v }, out)
   | ["reset"] => ({}, "ok")
   | _ => (w, "!bad-op")
 
